@@ -41,6 +41,7 @@ type cliReachRun struct {
 	Order    []string // steered order of the seeds (refresh mode; nil = as NewClient shuffled them)
 	RetryMax int
 	Phases   []map[string]int // label -> fault kind (b-labels: any kind, a-labels: up / refused)
+	Conc     int              // > 1: in a phase in which nobody answers, that many callers refresh at the same time
 }
 
 type cliReachCase struct {
@@ -213,6 +214,39 @@ func cliReachCore() []cliReachCase {
 				out = append(out, c)
 			}
 		}
+		// D: a total outage met by several refreshing callers at once, then the seeds (or some) answer again
+		for n := 1; n <= 3; n++ {
+			for _, alias := range []bool{false, true} {
+				bl := labels("b", n)
+				seeds := bl
+				all := map[string]int{}
+				for _, l := range bl {
+					all[l] = rfRefuse
+				}
+				if alias {
+					seeds = labels("a", n)
+					for _, l := range seeds {
+						all[l] = rfRefuse
+					}
+				}
+				back := map[string]int{}
+				for _, l := range append(append([]string(nil), bl...), seeds...) {
+					if l[1] != '1' {
+						back[l] = rfRefuse // only the first broker (and its alias) returns
+					}
+				}
+				c := cliReachCase{Name: fmt.Sprintf("outage-concurrent/n=%d/alias=%v", n, alias), N: n, Aliases: alias}
+				for _, conc := range []int{2, 4, 8} {
+					for _, rm := range []int{0, 1} {
+						for rep := 0; rep < 4; rep++ {
+							c.Runs = append(c.Runs, cliReachRun{Mode: "refresh", Seeds: seeds, RetryMax: rm, Conc: conc,
+								Phases: []map[string]int{all, all, back, all, {}}})
+						}
+					}
+				}
+				out = append(out, c)
+			}
+		}
 		cliReachCoreList = out
 	})
 	return cliReachCoreList
@@ -369,7 +403,7 @@ func runCliReachCase(c cliReachCase) proto.Rec {
 				sort.Strings(parts)
 				ph = append(ph, "{"+strings.Join(parts, ",")+"}")
 			}
-			return fmt.Sprintf("brokers=%d seeds=%v order=%v Metadata.Retry.Max=%d mode=%s phases=%s", c.N, run.Seeds, run.Order, run.RetryMax, run.Mode, strings.Join(ph, " then "))
+			return fmt.Sprintf("brokers=%d seeds=%v order=%v Metadata.Retry.Max=%d mode=%s concurrent-callers-during-outages=%d phases=%s", c.N, run.Seeds, run.Order, run.RetryMax, run.Mode, run.Conc, strings.Join(ph, " then "))
 		}
 		first := 0
 		setPhase(nil)
@@ -426,7 +460,7 @@ func runCliReachCase(c cliReachCase) proto.Rec {
 				known = append(known, b.Addr())
 			}
 			pre := false
-			for _, a := range append(append(append([]string(nil), live...), dead...), known...) {
+			for _, a := range append(append(append(append([]string(nil), live...), dead...), known...), seedAddrs...) {
 				if l, ok := labelOf[a]; ok && answers(ph, l) {
 					pre = true
 				}
@@ -434,6 +468,23 @@ func runCliReachCase(c cliReachCase) proto.Rec {
 			dialer.ResetDials()
 			before := crec.count()
 			fe0 := atomic.LoadInt64(&crec.fetchErrs)
+			if !pre && run.Conc > 1 {
+				// nobody answers: several callers run dry at the same time (judged by what the next phases find)
+				var wg sync.WaitGroup
+				for g := 0; g < run.Conc; g++ {
+					wg.Add(1)
+					go func() {
+						defer wg.Done()
+						for i := 0; i < 3; i++ {
+							cl.RefreshMetadata()
+						}
+					}()
+				}
+				wg.Wait()
+				rec.Obs["outage_phases_with_concurrent_callers"]++
+				rec.Obs["refresh_calls"] += int64(3 * run.Conc)
+				continue
+			}
 			rerr := cl.RefreshMetadata()
 			rec.Obs["refresh_calls"]++
 			order := dialOrder(dialer.Dials(), labelOf)
@@ -573,6 +624,9 @@ func healthyWhere(ph map[string]int, answers func(map[string]int, string) bool, 
 		if l, ok := labelOf[a]; ok && answers(ph, l) {
 			where = append(where, "known")
 		}
+	}
+	if len(where) == 0 {
+		return "seed-in-none-of-the-client's-lists"
 	}
 	return strings.Join(uniqSorted(where), "+")
 }
